@@ -94,6 +94,23 @@ class Cls:
         return list(self.methods.values()) + list(self.getters.values()) + list(self.setters.values())
 
 
+def clone(node):
+    """structural copy of an AST node: fields and positions only - the parent links and analysis marks set on the program model
+    are not followed (copy.deepcopy would copy the whole module through `_parent`)"""
+    if isinstance(node, list):
+        return [clone(x) for x in node]
+    if not isinstance(node, ast.AST):
+        return node
+    new = type(node)()
+    for f in node._fields:
+        if hasattr(node, f):
+            setattr(new, f, clone(getattr(node, f)))
+    for a in ('lineno', 'col_offset', 'end_lineno', 'end_col_offset'):
+        if hasattr(node, a):
+            setattr(new, a, getattr(node, a))
+    return new
+
+
 class Module:
     def __init__(self, root, path, defer=False):
         self.path = path
